@@ -101,8 +101,10 @@ func (c *Case) goEpilogue(v Variant) string {
 	for _, k := range c.NestInput2 {
 		inner2 = append(inner2, fmt.Sprint(k))
 	}
-	sb.WriteString("var vhInner = []int{" + strings.Join(inner, ", ") + "}\nvar vhInner2 = []int{" + strings.Join(inner2, ", ") + "}\nvar vhDepth int\n")
-	nestCall := "PushContex()\n\tParserInit()\n\tfunc() {\n\t\tdefer func() {\n\t\t\tif r := recover(); r != nil {\n\t\t\t\tres = \"rejected\"\n\t\t\t}\n\t\t}()\n\t\tif v := Parser(vhInnerName()); v != nil {\n\t\t\tres = \"accepted \" + vhShow(v)\n\t\t}\n\t}()\n\tPopContex()"
+	sb.WriteString("var vhInner = []int{" + strings.Join(inner, ", ") + "}\nvar vhInner2 = []int{" + strings.Join(inner2, ", ") + "}\nvar vhDepth int\nvar vhRunNo int\n")
+	// one or two parses within ONE nested level, re-initialised in between (PushContex; ParserInit; Parser; [ParserInit; Parser;]
+	// PopContex): every second top-level parse of a process does it twice - what the outer parse shows must not depend on that
+	nestCall := "PushContex()\n\tfor round := 0; round < 1+vhRunNo%2; round++ {\n\tres = \"nil\"\n\tParserInit()\n\tfunc() {\n\t\tdefer func() {\n\t\t\tif r := recover(); r != nil {\n\t\t\t\tres = \"rejected\"\n\t\t\t}\n\t\t}()\n\t\tif v := Parser(vhInnerName()); v != nil {\n\t\t\tres = \"accepted \" + vhShow(v)\n\t\t}\n\t}()\n\t}\n\tPopContex()"
 	if v.Object {
 		nestCall = "func() {\n\t\tdefer func() {\n\t\t\tif r := recover(); r != nil {\n\t\t\t\tres = \"rejected\"\n\t\t\t}\n\t\t}()\n\t\tif v := MakeParserContext().Parser(vhInnerName()); v != nil {\n\t\t\tres = \"accepted \" + vhShow(v)\n\t\t}\n\t}()"
 	}
@@ -233,6 +235,7 @@ func main() {
 			vhToks = append(vhToks, k)
 		}
 		vhRed = 0
+		vhRunNo = n
 		fmt.Printf("BEGIN %d\n", n)
 		vhRunOne()
 		fmt.Printf("END\n")
@@ -379,10 +382,15 @@ func Valuate(c *Case, r *rand.Rand, valued bool) {
 	}
 	// tokens declared with %token: most tagged. Literals used only in rules
 	// and precedence-only symbols stay untagged.
+	seenTok := map[string]bool{}
 	for i := range c.Tokens {
 		if r.Intn(5) != 0 {
-			c.Tokens[i].Tag = tagNames[r.Intn(3)]
+			tg := tagNames[r.Intn(3)]
+			if !seenTok[c.Tokens[i].Sym()] { // a later re-declaration (numbering line) of the same token carries no tag
+				c.Tokens[i].Tag = tg
+			}
 		}
+		seenTok[c.Tokens[i].Sym()] = true
 	}
 	for i := range c.Rules {
 		ru := &c.Rules[i]
